@@ -53,6 +53,7 @@ func TestVP_C32_Manager(t *testing.T) {
 		unregisteredAt := map[*Connection]bool{} // connections known to be refused or torn down
 		var violations []string
 		staleNotes := 0
+		framesSeen := 0
 		var accepted []*Connection
 		var reconnectInCallback func() // set by the teardown step: the peer reconnects while the callback runs
 		var M *Manager
@@ -80,6 +81,7 @@ func TestVP_C32_Manager(t *testing.T) {
 		cfg.OnFrame = func(c *Connection, f *protocol.Frame) {
 			mu.Lock()
 			defer mu.Unlock()
+			framesSeen++
 			if unregisteredAt[c] {
 				violations = append(violations, fmt.Sprintf("a frame (type 0x%02x) was delivered from connection %p which is not registered", f.Type, c))
 			}
@@ -252,6 +254,8 @@ func TestVP_C32_Manager(t *testing.T) {
 							r = x
 						}
 					}
+					// ... and possibly from both ends at once: the peer dials M while M dials the peer
+					both := rapid.Bool().Draw(t, "bothEndsDial")
 					mu.Lock()
 					reconnectInCallback = func() {
 						rwg.Add(1)
@@ -260,6 +264,20 @@ func TestVP_C32_Manager(t *testing.T) {
 							r.m.Disconnect(vpC32ID(0))
 							r.m.ConnectWithTransport(ctx, net.Transport(r.name), "M")
 						}()
+						if both {
+							rwg.Add(1)
+							go func() {
+								defer rwg.Done()
+								if nc, _ := M.ConnectWithTransport(ctx, net.Transport("M"), r.name); nc != nil {
+									mu.Lock()
+									remember(nc)
+									if M.GetPeer(nc.RemoteID) != nc {
+										unregisteredAt[nc] = true
+									}
+									mu.Unlock()
+								}
+							}()
+						}
 					}
 					mu.Unlock()
 					nt = true
@@ -294,13 +312,17 @@ func TestVP_C32_Manager(t *testing.T) {
 			},
 			"disconnect": func(t *rapid.T) {
 				r := rems[rapid.IntRange(0, len(rems)-1).Draw(t, "remote")]
-				if c := M.GetPeer(r.id); c != nil {
+				// frames the connection delivered while it was registered are fine: it is marked
+				// only after Disconnect has returned and what was already read has been handed over
+				c := M.GetPeer(r.id)
+				M.Disconnect(r.id)
+				if c != nil {
+					time.Sleep(500 * time.Microsecond)
 					mu.Lock()
 					remember(c)
 					unregisteredAt[c] = true
 					mu.Unlock()
 				}
-				M.Disconnect(r.id)
 				hist = append(hist, "disconnect("+r.name+")")
 				check()
 			},
@@ -308,6 +330,18 @@ func TestVP_C32_Manager(t *testing.T) {
 				// every remote writes a frame on whatever it has registered for M
 				for _, r := range rems {
 					r.m.SendToPeer(vpC32ID(0), &protocol.Frame{Type: protocol.FrameStreamClose, StreamID: 77})
+				}
+				// let them arrive before the next step changes registrations
+				for last, still := -1, 0; still < 4; {
+					mu.Lock()
+					n := framesSeen
+					mu.Unlock()
+					if n == last {
+						still++
+					} else {
+						last, still = n, 0
+					}
+					time.Sleep(500 * time.Microsecond)
 				}
 				hist = append(hist, "frames")
 				check()
